@@ -591,3 +591,7 @@ M("truth1-engine-if-replacement", "C10", EX, "        if replacement is None:\n 
 
 # ---------------------------------------------------------------- REG-8
 M("reg8-register-only-if-options", "C12", "_customization.py", "    @elaborate_frame.register(target, *inner_names)\n    def customize_it(frame: Frame, next_inner: object) -> Any:", "    if not (hide or hide_line or prune or elaborate):\n        return target\n\n    @elaborate_frame.register(target, *inner_names)\n    def customize_it(frame: Frame, next_inner: object) -> Any:", "REG-8")
+
+# ---------------------------------------------------------------- FMT-14 / FMT-15
+M("fmt15-leaf-marker-unconditional", "C18", TY, "        start_leaf = \"+ \" if opts.ascii_only else \"╚ \"\n", "        start_leaf = \"╚ \"\n", ["FMT-15", "FMT-1"])
+M("fmt14-memo-without-hidden", "C18", TY, "    def _format(self, opts: FormatOptions) -> List[str]:\n        start_context = \". \" if opts.ascii_only else \"├ \"\n", "    def _format(self, opts: FormatOptions) -> List[str]:\n        self.__dict__.setdefault(\"_memo\", {})\n        self._memo[(opts.ascii_only, opts.show_contexts)] = True\n        start_context = \". \" if opts.ascii_only else \"├ \"\n", "FMT-14")
